@@ -9,12 +9,12 @@ CROOTS = ['splinetable_init', 'splinetable_free', 'readsplinefitstable', 'writes
           'splinetable_write_key', 'splinetable_ndim', 'splinetable_order', 'splinetable_nknots', 'splinetable_knots', 'splinetable_knot', 'splinetable_lower_extent', 'splinetable_upper_extent',
           'splinetable_period', 'splinetable_ncoeffs', 'splinetable_total_ncoeffs', 'splinetable_stride', 'splinetable_coefficients', 'tablesearchcenters', 'ndsplineeval', 'ndsplineeval_gradient',
           'ndsplineeval_deriv', 'splinetable_convolve', 'splinetable_permute']
-def cinter_ir(): return once('cinter_ir', lambda: build_ir('cinter', [VERIF + '/wrap/cinter.cpp', REPO + '/src/cinter/splinetable.cpp', REPO + '/src/core/fitsio.cpp', REPO + '/src/core/convolve.cpp', REPO + '/src/core/bspline.cpp']))
+def cinter_ir(): return once('cinter_ir', lambda: build_ir('cinter', [VERIF + '/wrap/cinter.cpp', VERIF + '/wrap/estimate.cpp', REPO + '/src/cinter/splinetable.cpp', REPO + '/src/core/fitsio.cpp', REPO + '/src/core/convolve.cpp', REPO + '/src/core/bspline.cpp']))
 
 def build_harness():
     def build():
         d = scratch(); evalkit.layout_header(); c06.stream_layout()
-        c = os.path.join(d, 'cinter_sym.c'); m = ir2c(cinter_ir(), c, ['/^t_/'] + CROOTS)
+        c = os.path.join(d, 'cinter_sym.c'); m = ir2c(cinter_ir(), c, ['/^t_/', '/^e_/'] + CROOTS)
         objs = []
         def cc(src):
             o = os.path.join(d, 'cinter.%s.o' % os.path.basename(src))
